@@ -25,7 +25,8 @@ namespace
     int cond_mutex;   // mutex to re-acquire after a condition wait
     std::atomic<int> turn;
     pthread_t real;
-    uint64_t trace;   // rolling hash of the thread's own operation sequence
+    uint64_t trace;   // rolling hash of the thread's own operation sequence (condition waits excluded, see vs_op_cond_wait)
+    int woken;        // 1 between the return from a condition wait and the thread's next traced operation
     void* (*fn)(void*);
     void* arg;
   };
@@ -93,6 +94,7 @@ namespace
   void trace(int self, int kind, long a, long b = 0)
   {
     T[self].trace = mix(mix(mix(T[self].trace, (uint64_t)kind), (uint64_t)a), (uint64_t)b);
+    T[self].woken = 0;
     ev(self, kind, a, b);
   }
 
@@ -137,6 +139,7 @@ namespace
       else if(T[t].st == T_WAIT_JOIN) o = (uint64_t)T[t].obj;
       h = mix(h, o);
       h = mix(h, T[t].trace);
+      h = mix(h, (uint64_t)T[t].woken);
     }
     // mutex owners, ordered by stable id (registered ones first in registration order)
     for(int i = 0; i < nM; ++i)
@@ -298,7 +301,11 @@ extern "C" int vs_op_cond_wait(void* c, void* m)
   const int self = tl_id;
   const int ci = cond_index(c);
   const int mi = mutex_index(m);
-  trace(self, vsched::ev_wait, C[ci].id, M[mi].id);
+  // Whether (and how often) a thread had to wait inside a 'while(!pred) wait' loop is not part of its
+  // program position: a thread that returns from the wait is in the same situation as one that is about
+  // to acquire the mutex for the first time, except that it has not re-checked the predicate yet -- that
+  // difference is kept in the transient 'woken' flag. The wait is therefore logged but not hashed.
+  ev(self, vsched::ev_wait, C[ci].id, M[mi].id);
   if(M[mi].owner != self) { fprintf(stderr, "vsched: cond_wait with a mutex not owned by the caller\n"); _exit(98); }
   M[mi].owner = -1;
   T[self].st = T_WAIT_COND;
@@ -309,7 +316,8 @@ extern "C" int vs_op_cond_wait(void* c, void* m)
   if(T[self].st != T_WAIT_MUTEX || M[mi].owner != -1) { fprintf(stderr, "vsched: internal error: bad state on wake\n"); _exit(98); }
   M[mi].owner = self;
   T[self].st = T_RUNNABLE;
-  trace(self, vsched::ev_wake, C[ci].id);
+  T[self].woken = 1;
+  ev(self, vsched::ev_wake, C[ci].id);
   return 0;
 }
 
@@ -340,7 +348,7 @@ extern "C" int vs_op_create(pthread_t* th, const pthread_attr_t* attr, void* (*f
   resolve_real();
   if(nT >= VS_MAXT) { fprintf(stderr, "vsched: too many threads\n"); _exit(98); }
   const int id = nT;
-  T[id].st = T_RUNNABLE; T[id].obj = -1; T[id].cond_mutex = -1; T[id].turn.store(0); T[id].trace = (uint64_t)id * 7919u + 13u;
+  T[id].st = T_RUNNABLE; T[id].obj = -1; T[id].cond_mutex = -1; T[id].turn.store(0); T[id].trace = (uint64_t)id * 7919u + 13u; T[id].woken = 0;
   T[id].fn = fn; T[id].arg = arg;
   ++nT;
   int rc = real_create(&T[id].real, attr, trampoline, (void*)(long)id);
@@ -406,7 +414,7 @@ namespace vsched
   {
     resolve_real();
     tl_id = 0;
-    T[0].st = T_RUNNABLE; T[0].obj = -1; T[0].cond_mutex = -1; T[0].turn.store(0); T[0].trace = 13u; T[0].fn = nullptr; T[0].arg = nullptr;
+    T[0].st = T_RUNNABLE; T[0].obj = -1; T[0].cond_mutex = -1; T[0].turn.store(0); T[0].trace = 13u; T[0].woken = 0; T[0].fn = nullptr; T[0].arg = nullptr;
     nT = 1;
     g_cur = 0;
     g_active.store(1);
